@@ -46,6 +46,12 @@ class OutOfBound(BaseException):
     """A stated bound (reads, unrollings) was exceeded on this path."""
 
 
+class PathTimeout(BaseException):
+    """The code under test did not finish within the per-path wall-clock limit
+    (harnesses whose property includes termination turn this into a violation
+    that the replay must confirm)."""
+
+
 class SolverUnknown(BaseException):
     """The solver answered unknown on a branch decision."""
 
